@@ -22,6 +22,15 @@ RULE = ('case = one golden-corpus or generated program x K configurations; a con
 ASSUMPTIONS = ['the plain run (corpus asflags, -q) is the reference; sha-256 collisions ignored',
                'time stamps are masked by regular expressions for dates, times and the assembly-time summary line']
 
+MANIFEST = dict(
+    category='exploration', design_ref='DESIGN.md §4 C17',
+    technique='metamorphic runtime monitor: sha-256 of the code file across repeated / re-optioned / re-located executions of the sanitised binary',
+    text='Held on the executions of this run: every golden-corpus program and generated programs were assembled under K sampled configurations '
+         '(report-option subsets, locale, cwd, output path, option carrier), each twice; code files must be byte-identical to the plain run and '
+         'listing/MAP/share outputs reproducible after masking the time stamp. Sampling, not exhaustive over option subsets.',
+    note='Trusts the plain run of the same binary as reference (a defect that changes code identically under all configurations is invisible here; '
+         'C16 compares against recorded .ori images). Time-stamp masking by regular expression.')
+
 REPORT_OPTS = [
     ['-L'], ['-l'], ['-L', '-OLIST', 'other.lst'], ['-u'], ['-C'], ['-s'], ['-I'],
     ['-g', 'MAP'], ['-g', 'NOICE'], ['-g', 'ATMEL'], ['-g'],
